@@ -6,6 +6,7 @@ import (
 	"fmt"
 	"go/token"
 	"go/types"
+	"math/big"
 	"regexp"
 	"sort"
 	"strings"
@@ -38,40 +39,72 @@ type ModelVar struct {
 }
 
 type VC struct {
-	eng      *Engine
-	ar       Arith
-	decls    []string
-	declSet  map[string]bool
-	trace    []string
-	obls     []*Obligation
-	fresh    int
-	fnName   string
-	tids     map[string]int
-	tidTypes []types.Type
-	trusted  map[string]bool // trusted things actually used
-	dropped  map[string]bool
-	structs  map[string]*types.Struct
-	dry      int // >0 while in a dry run (no obligations recorded)
-	strLits  map[string]Term
-	oblNames map[string]int
-	cellSeq  int
+	eng       *Engine
+	ar        Arith
+	decls     []string
+	declSet   map[string]bool
+	trace     []string
+	obls      []*Obligation
+	fresh     int
+	fnName    string
+	tids      map[string]int
+	tidTypes  []types.Type
+	trusted   map[string]bool // trusted things actually used
+	dropped   map[string]bool
+	structs   map[string]*types.Struct
+	dry       int // >0 while in a dry run (no obligations recorded)
+	strLits   map[string]Term
+	oblNames  map[string]int
+	cellSeq   int
+	cellIDs   map[*ssa.Alloc]int
 	anonNames map[string]string
-	epochSeq int
-	inputs   []ModelVar
+	isLemma   bool
+	wlog      *writeLog
+	lastSk    map[string][]skolem
+	epochSeq  int
+	inputs    []ModelVar
 }
 
 func newVC(eng *Engine, mode Mode, fnName string) *VC {
 	vc := &VC{eng: eng, ar: Arith{mode}, declSet: map[string]bool{}, fnName: fnName, tids: map[string]int{},
-		trusted: map[string]bool{}, dropped: map[string]bool{}, structs: map[string]*types.Struct{}, strLits: map[string]Term{}, oblNames: map[string]int{}, anonNames: map[string]string{}}
+		trusted: map[string]bool{}, dropped: map[string]bool{}, structs: map[string]*types.Struct{}, strLits: map[string]Term{}, oblNames: map[string]int{}, anonNames: map[string]string{}, cellIDs: map[*ssa.Alloc]int{}, lastSk: map[string][]skolem{}}
 	idx := vc.ar.IdxSort()
 	vc.decl("sort:Slice", fmt.Sprintf("(declare-datatypes ((Slice 0)) (((mk-slice (s-ref Int) (s-off %s) (s-len %s) (s-cap %s)))))", idx, idx, idx))
 	vc.decl("sort:Iface", "(declare-datatypes ((Iface 0)) (((mk-iface (i-typ Int) (i-val Int)))))")
 	vc.decl("sort:Str", "(declare-sort Str 0)")
 	vc.decl("sort:Float", "(declare-sort Float 0)")
 	vc.decl("sort:BSeq", "(declare-sort BSeq 0)")
-	vc.decl("fun:str.len", fmt.Sprintf("(declare-fun str.len (Str) %s)", idx))
-	vc.decl("fun:str.at", fmt.Sprintf("(declare-fun str.at (Str %s) %s)", idx, vc.ar.Sort(IntKind{8, false})))
+	vc.decl("fun:gs.len", fmt.Sprintf("(declare-fun gs.len (Str) %s)", idx))
+	vc.decl("fun:gs.at", fmt.Sprintf("(declare-fun gs.at (Str %s) %s)", idx, vc.ar.Sort(IntKind{8, false})))
 	return vc
+}
+
+// setHeap assigns a heap map. field >= 0 says that only that top-level field of the
+// struct-valued entries was written (recorded while a loop body is probed, so that the
+// loop havoc can keep the other fields).
+func (vc *VC) setHeap(st *State, key string, t Term, field int) {
+	st.heap[key] = t
+	if vc.wlog != nil {
+		if field < 0 {
+			vc.wlog.whole[key] = true
+		} else {
+			if vc.wlog.fields[key] == nil {
+				vc.wlog.fields[key] = map[int]bool{}
+			}
+			vc.wlog.fields[key][field] = true
+		}
+	}
+}
+
+type skolem struct {
+	name  string
+	arity int
+	sorts string
+}
+
+type writeLog struct {
+	whole  map[string]bool
+	fields map[string]map[int]bool
 }
 
 func (vc *VC) decl(key, text string) {
@@ -323,14 +356,14 @@ func (vc *VC) strLit(s string) Term {
 	if t, ok := vc.strLits[s]; ok {
 		return t
 	}
-	name := fmt.Sprintf("str.lit%d", len(vc.strLits))
+	name := fmt.Sprintf("gs.lit%d", len(vc.strLits))
 	vc.decls = append(vc.decls, fmt.Sprintf("(declare-const %s Str) ; %q", name, s))
 	t := raw(name, "Str")
 	// length and (for short literals) characters; distinctness from other literals
-	vc.decls = append(vc.decls, fmt.Sprintf("(assert (= (str.len %s) %s))", name, vc.idx(int64(len(s))).S))
+	vc.decls = append(vc.decls, fmt.Sprintf("(assert (= (gs.len %s) %s))", name, vc.idx(int64(len(s))).S))
 	if len(s) <= 64 {
 		for i := 0; i < len(s); i++ {
-			vc.decls = append(vc.decls, fmt.Sprintf("(assert (= (str.at %s %s) %s))", name, vc.idx(int64(i)).S, vc.ar.Lit64(int64(s[i]), IntKind{8, false}).S))
+			vc.decls = append(vc.decls, fmt.Sprintf("(assert (= (gs.at %s %s) %s))", name, vc.idx(int64(i)).S, vc.ar.Lit64(int64(s[i]), IntKind{8, false}).S))
 		}
 	}
 	for o, ot := range vc.strLits {
@@ -684,16 +717,24 @@ func (vc *VC) storeLoc(st *State, l *Loc, v Val) error {
 		if len(l.Path) > 0 {
 			nv = vc.update(Select(h, l.Ref), l.Path, v.T)
 		}
-		st.heap[l.Key] = vc.bind("H", Store(h, l.Ref, nv))
+		vc.setHeap(st, l.Key, vc.bind("H", Store(h, l.Ref, nv)), pathField(l.Path))
 	case LElem:
 		inner := Select(h, l.Ref)
 		nv := v.T
 		if len(l.Path) > 0 {
 			nv = vc.update(Select(inner, l.Idx), l.Path, v.T)
 		}
-		st.heap[l.Key] = vc.bind("E", Store(h, l.Ref, Store(inner, l.Idx, nv)))
+		vc.setHeap(st, l.Key, vc.bind("E", Store(h, l.Ref, Store(inner, l.Idx, nv))), pathField(l.Path))
 	}
 	return nil
+}
+
+// pathField: the top-level struct field a path starts with, or -1 (whole value).
+func pathField(p []PathEl) int {
+	if len(p) > 0 && p[0].Idx == nil {
+		return p[0].Field
+	}
+	return -1
 }
 
 // loadObject reads a whole object of type t at reference ref (t struct, array or other).
@@ -742,14 +783,14 @@ func (vc *VC) storeObject(st *State, ref Term, t types.Type, v Term) error {
 				continue
 			}
 			key, hs := vc.fieldKey(t, i)
-			st.heap[key] = vc.bind("H", Store(vc.heapGet(st, key, hs), ref, fv))
+			vc.setHeap(st, key, vc.bind("H", Store(vc.heapGet(st, key, hs), ref, fv)), -1)
 		}
 	case *types.Array:
 		key, hs := vc.elemKey(u.Elem())
-		st.heap[key] = vc.bind("E", Store(vc.heapGet(st, key, hs), ref, v))
+		vc.setHeap(st, key, vc.bind("E", Store(vc.heapGet(st, key, hs), ref, v)), -1)
 	default:
 		key, hs := vc.cellKey(t)
-		st.heap[key] = vc.bind("C", Store(vc.heapGet(st, key, hs), ref, v))
+		vc.setHeap(st, key, vc.bind("C", Store(vc.heapGet(st, key, hs), ref, v)), -1)
 	}
 	return nil
 }
@@ -761,7 +802,7 @@ func (vc *VC) allocRef(st *State, hint string) Term {
 	al := vc.heapGet(st, "$alloc", as)
 	vc.decl("fun:ref.kind", "(declare-fun ref.kind (Int) Int)")
 	vc.assert(And(Not(Eq(r, intLit64(0))), Not(Select(al, r)), Eq(app(SInt, "ref.kind", r), intLit64(0)), app(SBool, ">", r, intLit64(0))))
-	st.heap["$alloc"] = vc.bind("alloc", Store(al, r, TTrue))
+	vc.setHeap(st, "$alloc", vc.bind("alloc", Store(al, r, TTrue)), -1)
 	return r
 }
 
@@ -778,7 +819,7 @@ func (vc *VC) wf(st *State, v Term, t types.Type, depth int) Term {
 			return vc.ar.InRange(v, k)
 		}
 		if u.Info()&types.IsString != 0 {
-			return vc.ar.Cmp(">=", app(vc.ar.IdxSort(), "str.len", v), vc.idx(0), kInt)
+			return vc.ar.Cmp(">=", app(vc.ar.IdxSort(), "gs.len", v), vc.idx(0), kInt)
 		}
 	case *types.Pointer, *types.Map, *types.Chan:
 		vc.decl("fun:ref.kind", "(declare-fun ref.kind (Int) Int)")
@@ -809,6 +850,12 @@ func (vc *VC) wf(st *State, v Term, t types.Type, depth int) Term {
 			c = append(c, vc.ar.InRange(off, kInt), vc.ar.InRange(ln, kInt), vc.ar.InRange(cp, kInt))
 			sum, _ := vc.ar.Bin("+", off, cp, kInt)
 			c = append(c, vc.ar.InRange(sum, kInt))
+		}
+		// a slice of elements of size s has at most MaxInt/s elements (it fits in the address space)
+		if sz := types.SizesFor("gc", "amd64").Sizeof(u.Elem()); sz > 1 {
+			lim := new(big.Int).Div(kInt.max(), big.NewInt(sz))
+			sum, _ := vc.ar.Bin("+", off, cp, kInt)
+			c = append(c, vc.ar.Cmp("<=", sum, vc.ar.Lit(lim, kInt), kInt))
 		}
 		return And(c...)
 	case *types.Interface:
